@@ -225,7 +225,7 @@ func (p *asProver) GenerateAggchainProof(ctx context.Context, req *aggsendertype
 	g := NewRng(uint64(p.w.nProofs) + 4242)
 	return &aggsendertypes.AggchainProof{LastProvenBlock: req.LastProvenBlock, EndBlock: end, CustomChainData: g.Bytes(8),
 		AggchainParams: common.BytesToHash(g.Bytes(32)), Context: map[string][]byte{"k": g.Bytes(4)},
-		SP1StarkProof: &aggsendertypes.SP1StarkProof{Version: "v1", Proof: g.Bytes(16), Vkey: g.Bytes(8)}}, nil
+		SP1StarkProof: &aggsendertypes.SP1StarkProof{Version: "v1", Proof: g.Bytes(16 * (p.w.nProofs % 4 / 3 ^ 1)), Vkey: g.Bytes(8)}}, nil // every fourth proof is empty (a placeholder prover)
 }
 func (p *asProver) GenerateOptimisticAggchainProof(req *aggsendertypes.AggchainProofRequest, sig []byte) (*aggsendertypes.AggchainProof, error) {
 	if !p.w.optOn {
@@ -926,9 +926,23 @@ func (w *asWorld) exec(line string) string {
 		}
 		w.r.Count("tick-with-unreadable-records")
 		return out + " rows=" + w.rowsDump()
-	case "epoch", "status", "epoch!", "status!":
+	case "epoch", "status", "epoch!", "status!", "epoch~":
 		if w.node == nil {
 			return "down"
+		}
+		if ws[0] == "epoch~" && w.fep {
+			return "n/a" // the aggchain-prover flow reads those nodes for every proof request
+		}
+		if ws[0] == "epoch~" {
+			// the nodes of the L1 info tree cannot be read during this tick (table renamed away): a certificate that imports
+			// claims cannot get their L1 info proofs and must not be built
+			_, err := w.l1.DB().Exec(`ALTER TABLE l1_info_rht RENAME TO l1_info_rht_verif_away`)
+			must(err)
+			defer func() {
+				_, err := w.l1.DB().Exec(`ALTER TABLE l1_info_rht_verif_away RENAME TO l1_info_rht`)
+				must(err)
+			}()
+			w.r.Count("tick-with-unreadable-l1-info-nodes")
 		}
 		crash := strings.HasSuffix(ws[0], "!")
 		w.crashAtSave = crash
